@@ -180,3 +180,225 @@ def base_deps(v):
         else:
             out.add(d)
     return out
+
+
+# --------------------------------------------------------------------------
+# network node harness: a symbolic node object on top of the radio invariant
+# --------------------------------------------------------------------------
+from ..absval import Unknown
+from ..interp import Raised
+from .radio import Radio
+from ..tables import contract as _ct
+
+NODE_CLASSES = [("rf24_network", "RF24NetworkRoutingOnly"), ("rf24_network", "RF24Network"),
+                ("rf24_mesh", "RF24MeshNoMaster"), ("rf24_mesh", "RF24Mesh")]
+
+# radio registers of a listening network node (what _begin() establishes): RX mode, powered, EN_AA=0x3E, all pipes open, dynamic payloads
+LISTENING = {_ct.CONFIG: 0x0F, _ct.EN_AA: 0x3E, _ct.EN_RXADDR: 0x3F, _ct.DYNPD: 0x3F, _ct.FEATURE: 0x05}
+
+
+def sum_send(model, it, st, fr, node, target, args, kwargs):
+    """summary of RF24.send()/resend(): CE low then (on a loaded payload) high; STATUS refreshed; unknown result.
+    The summary's frame condition (only STATUS/FIFOs/CE are touched) is verified by rule R07.0."""
+    txn, sv = model.new_status(it, st, fr, args[0], node)
+    buf = args[1] if len(args) > 1 else kwargs.get("buf")
+    it.event(st, fr, "ce", node, Const(False))
+    st.extra["ce"] = Const(False)
+    it.event(st, fr, "radio-send", node, (target.func.name, buf, dict(kwargs), args[2:], txn))
+    it.event(st, fr, "ce", node, Const(True))
+    st.extra["ce"] = Const(True)
+    k = st.extra.get("nsend", 0) + 1
+    st.extra["nsend"] = k
+    set_rng(st, ("sendresult", k), (0, 1))
+    return [(st, Sym(("sendresult", k), "bool"))]
+
+
+def sum_tx_standby(model, it, st, fr, node, target, args, kwargs):
+    """summary of NetworkMixin._tx_standby(): a clock-bounded loop around RF24.resend() (shape verified by R07.0)"""
+    selfv = args[0]
+    rf = st.heap[selfv.ident].fields.get("_rf24") if isinstance(selfv, Ref) else None
+    return sum_send(model, it, st, fr, node, target, [rf] + list(args[1:]), kwargs)
+
+
+def sum_read(model, it, st, fr, node, target, args, kwargs):
+    """summary of RF24.read(): None, or a payload of 1..32 bytes of unknown content"""
+    txn, sv = model.new_status(it, st, fr, args[0], node)
+    s2 = st.fork()
+    it.budget()
+    it.event(st, fr, "radio-read", node, ("none", txn))
+    k = s2.extra.get("nread", 0) + 1
+    s2.extra["nread"] = k
+    ln = ("len", "rx%d" % k)
+    set_rng(s2, ln, (1, 32))
+    it.event(s2, fr, "radio-read", node, ("payload", txn, k))
+    pay = Bytes([(("rx", k), Sym(ln, "int", rng=(1, 32)))], "bytearray")
+    return [(st, Const(None)), (s2, pay)]
+
+
+def sum_available(model, it, st, fr, node, target, args, kwargs):
+    txn, sv = model.new_status(it, st, fr, args[0], node)
+    return [(st, Sym(st.fresh_name("available"), "bool"))]
+
+
+def sum_pipe_address(model, it, st, fr, node, target, args, kwargs):
+    """summary of NetworkMixin._pipe_address(): a fresh 5-byte address determined by (node address, pipe)"""
+    it.event(st, fr, "pipe-address", node, (args[1], args[2]))
+    r = Bytes([(("pipeaddr", repr(norm(args[1]).key()), repr(norm(args[2]).key())), Const(5))], "bytearray")
+    return [(st, r)]
+
+
+def sum_valid(model, it, st, fr, node, target, args, kwargs):
+    """summary of is_address_valid(): pure predicate"""
+    v = norm(args[0])
+    c = const_of(v)
+    if c is not None or (isinstance(v, Const) and v.v is None):
+        return None  # concrete: let the interpreter run it
+    k = st.extra.get("nvalid", 0) + 1
+    st.extra["nvalid"] = k
+    return [(st, Sym(("valid", k, repr(v.key())[:60]), "bool", of=v))]
+
+
+def sum_enqueue(model, it, st, fr, node, target, args, kwargs):
+    """summary of FrameQueue(Frag).enqueue() for radio-state analyses: the queue classes live in network/structs.py, which never
+    references the radio; the call only yields a boolean"""
+    it.event(st, fr, "enqueue", node, (args[1] if len(args) > 1 else None,))
+    k = st.extra.get("nenq", 0) + 1
+    st.extra["nenq"] = k
+    return [(st, Sym(("enqueued", k), "bool"))]
+
+
+def radio_merge_key(nn):
+    """states that agree on everything a continuation can observe about the radio are explored once"""
+    def key(it, func, st, v):
+        if nn.merge_funcs != "*" and func.name not in nn.merge_funcs:
+            return None
+        regs = st.extra.get("regs", {})
+        rk = tuple(sorted((r, _canon(x)) for r, x in regs.items() if r != 7))
+        ce = repr(st.extra.get("ce"))
+        vv = norm(v) if hasattr(v, "key") else v
+        if isinstance(vv, Sym) and vv.ty == "bool":
+            vk = "bool?"
+        else:
+            vk = _canon(vv)
+        return (func.qualname, rk, ce, vk, _watched(st))
+    return key
+
+
+import re as _re
+
+
+_CANON = {}
+_DIGITS = _re.compile(r"\d+")
+
+
+def _canon(v):
+    hit = _CANON.get(id(v))
+    if hit is not None and hit[0] is v:
+        return hit[1]
+    r = _canon_raw(v)
+    if len(_CANON) > 400000:
+        _CANON.clear()
+    _CANON[id(v)] = (v, r)
+    return r
+
+
+def _canon_raw(v):
+    v = norm(v) if hasattr(v, "key") and not isinstance(v, Ref) else v
+    if isinstance(v, Ref):
+        return "ref:%s" % (v.label or v.kind)
+    if isinstance(v, Const):
+        return repr(v.v)[:80]
+    if hasattr(v, "key"):
+        return _DIGITS.sub("#", repr(v.key()))[:200]
+    return repr(v)[:50]
+
+
+def _watched(st):
+    """canonical content of the objects a continuation can observe: the node, its frame buffer and header, the radio object"""
+    out = []
+    for ident, label in sorted(st.extra.get("watch", {}).items(), key=lambda kv: kv[1]):
+        cell = st.heap.get(ident)
+        if cell is None or cell.fields is None:
+            continue
+        for fname, fv in sorted(cell.fields.items()):
+            if isinstance(fv, Ref):
+                out.append((label, fname, "ref:" + (st.extra["watch"].get(fv.ident) or fv.kind)))
+            elif isinstance(fv, (Const, Sym, BitV, Lin)):
+                out.append((label, fname, _canon(fv)))
+    return tuple(out)
+
+
+def radio_loop_key(nn):
+    def key(it, st, fr):
+        regs = st.extra.get("regs", {})
+        rk = tuple(sorted((r, _canon(x)) for r, x in regs.items() if r != 7))
+        env = tuple(sorted((k, _canon(v)) for k, v in st.envs[fr.fid].items()))
+        return (rk, repr(st.extra.get("ce")), env, _watched(st))
+    return key
+
+
+class NetNode:
+    """a symbolic network/mesh node on a radio that satisfies the listening invariant"""
+
+    def __init__(self, ck, module, clsname, summaries=True):
+        self.ck, self.prog = ck, ck.prog
+        self.cls = ck.prog.cls(module, clsname)
+        self.radio = Radio(ck)
+        self.model = self.radio.model
+        P = ck.prog
+        rf = self.radio.cls
+        if summaries:
+            self.model.opaque[P.method(rf, "send").qualname] = sum_send
+            self.model.opaque[P.method(rf, "resend").qualname] = sum_send
+            self.model.opaque[P.method(rf, "read").qualname] = sum_read
+            self.model.opaque[P.method(rf, "available").qualname] = sum_available
+            mix = P.cls("network.mixins", "NetworkMixin")
+            self.model.opaque[P.method(mix, "_pipe_address").qualname] = sum_pipe_address
+            self.model.opaque[P.method(mix, "_tx_standby").qualname] = sum_tx_standby
+            self.model.opaque[P.func("network.structs", "is_address_valid").qualname] = sum_valid
+        self.merge_funcs = set()
+
+    def fresh(self, addr=None, pins=None, fields=None, queue="FrameQueueFrag", frame_pins=None, msg_len=None, own_p0=b"\x01\x02\x03\x04\x05"):
+        """state + node Ref.  addr: int (concrete routing attributes are NOT derived: masks stay symbolic unless given in fields)"""
+        regs = dict(LISTENING)
+        regs.update(pins or {})
+        st = self.radio.fresh(regs)
+        st.extra["ce"] = Const(True)
+        # the node's own pipe-0 address is what the radio remembers as the user's reading address
+        p0f = self.radio.user_pipe0_field()
+        from .c08 import pin_addr
+        pin_addr(self.radio, st, 0x0A, own_p0)
+        st.heap[self.radio.ref.ident].fields[p0f] = Bytes([(("const", own_p0), Const(5))], "bytes")
+        node = st.alloc("obj", cls=self.cls, label="node")
+        cell = st.heap[node.ident]
+        cell.fields["_rf24"] = self.radio.ref
+        ints = {"_addr": (0, 0o7777), "_mask": (0, 0xFFFF), "_mask_inv": (0, 0xFFFF), "_net_lvl": (0, 4), "_parent": (0, 0o7777), "_parent_pipe": (0, 5),
+                "tx_timeout": (0, None), "route_timeout": (0, None), "max_message_length": (0, None), "_id": (0, 255)}
+        for k, rng in ints.items():
+            set_rng(st, "node." + k, rng)
+            cell.fields[k] = Sym("node." + k, "int", rng=rng)
+        if addr is not None:
+            cell.fields["_addr"] = Const(addr)
+        for k in ("_relay_enabled", "_frag_enabled", "allow_multicast", "ret_sys_msg", "_parenthood", "_do_dhcp"):
+            cell.fields[k] = Sym("node." + k, "bool")
+        cell.fields["queue"] = sym_queue(st, self.prog, queue, nframes=0, max_size=None, label="queue")
+        cell.fields["frame_buf"] = sym_frame(st, self.prog, "frame_buf", frame_pins, msg_len=msg_len)
+        cell.fields["address_suffix"] = st.alloc("bytearray", items=[Const(b) for b in (0xC3, 0x3C, 0x33, 0xCE, 0x3E, 0xE3)], label="suffix")
+        cell.fields["address_prefix"] = st.alloc("bytearray", items=[Const(0xCC)], label="prefix")
+        cell.fields["block_less_callback"] = Const(None)
+        cell.fields["dhcp_dict"] = st.alloc("dict", items=[], opaque=True, label="dhcp_dict")
+        for k, v in (fields or {}).items():
+            cell.fields[k] = v if hasattr(v, "key") else Const(v)
+        fb = cell.fields["frame_buf"]
+        st.extra["watch"] = {node.ident: "node", fb.ident: "frame_buf", st.heap[fb.ident].fields["header"].ident: "frame_buf.header",
+                             self.radio.ref.ident: "radio"}
+        return st, node
+
+    def run(self, func, node, args, st, kwargs=None, limits=None):
+        it = Interp(self.prog, self.model, limits or Limits(max_paths=60000, loop_unroll=2, depth=14))
+        vals = [a if hasattr(a, "key") else Const(a) for a in args]
+        outs = it.run(func, self.cls, node, vals, kwargs, st=st)
+        self.ck.absorb(it)
+        self.ck.analysed(func)
+        self.last_it = it
+        return outs
